@@ -482,6 +482,56 @@ func compareQPRAgg(a simenv.AggReq, got *seq.AggregatableSamples, want *model.Ag
 			return fmt.Sprintf("unexpected bin %q (total %d)", k, gb.Total)
 		}
 	}
+	// the values handed to the API user: one per bin, computed by the proxy from the merged summaries
+	fn := map[string]seq.AggFunc{"count": seq.AggFuncCount, "sum": seq.AggFuncSum, "min": seq.AggFuncMin, "max": seq.AggFuncMax, "avg": seq.AggFuncAvg, "quantile": seq.AggFuncQuantile, "unique": seq.AggFuncUnique}
+	res := got.Aggregate(seq.AggregateArgs{Func: fn[a.Func], Quantiles: a.Quantiles})
+	for _, b := range res.Buckets {
+		wb := want.Bins[b.Name]
+		if wb == nil {
+			continue // reported above
+		}
+		var exp float64
+		switch a.Func {
+		case "count", "unique":
+			exp = float64(wb.Total)
+		case "sum":
+			exp = wb.Sum
+		case "min":
+			exp = wb.Min
+		case "max":
+			exp = wb.Max
+		case "avg":
+			if wb.Total != 0 {
+				exp = wb.Sum / float64(wb.Total)
+			}
+		case "quantile":
+			if len(wb.Samples) == 0 || len(wb.Samples) > 8096 || len(a.Quantiles) == 0 {
+				continue
+			}
+			q := a.Quantiles[0]
+			if q <= 0 || q >= 1 {
+				if q <= 0 {
+					exp = wb.Min
+				} else {
+					exp = wb.Max
+				}
+			} else {
+				exp = wb.Samples[int(float64(len(wb.Samples)-1)*q+0.5)]
+			}
+		}
+		if a.Field == "big" && (a.Func == "sum" || a.Func == "avg") {
+			continue
+		}
+		if wb.Total == 0 && a.Func != "count" && a.Func != "unique" {
+			if !math.IsNaN(b.Value) {
+				return fmt.Sprintf("bin %q has no value of the field: the %s reported is %v, not NaN", b.Name, a.Func, b.Value)
+			}
+			continue
+		}
+		if b.Value != exp {
+			return fmt.Sprintf("bin %q: %s reported %v, model %v", b.Name, a.Func, b.Value, exp)
+		}
+	}
 	return ""
 }
 
